@@ -600,7 +600,9 @@ def unclosed_is_error(chk, prog):
             edges = some_edge_of(prog, bb, nb, "None")
             for sb_, tgt in edges:
                 n += 1
-                reach = bb.reachable([tgt])
+                # (on the product with the variant store: an `Err` built in an inlined helper and handed to the caller's `?` does not reach `Ok`)
+                from .. import absreach
+                reach = absreach.feasible_from(bb, [tgt], prog)
                 bad = [o for o in oks if o in reach]
                 chk.ob("R2.unclosed", pth, "end of file inside a section is an error (no Ok result once the line iterator has run out)", not bad,
                        "when the lines run out the section can still be returned as parsed: a missing `}` is accepted and the sections after it are nested under the unclosed one",
